@@ -38,7 +38,7 @@ func (c10) Components() map[string][]string {
 	}
 }
 func (c10) ProbeNames() []string {
-	ps := []string{"read-at-eof", "seek-negative-target", "seek-past-eof", "read-after-close", "zero-len-read", "file-with-holes"}
+	ps := []string{"read-at-eof", "seek-negative-target", "seek-past-eof", "read-after-close", "zero-len-read", "file-with-holes", "file-beyond-4GiB"}
 	for _, k := range fsKinds {
 		ps = append(ps, "kind-"+k)
 	}
@@ -164,6 +164,12 @@ func (p c10) Exec(t *core.Trace) *core.Result {
 		{Path: "DIR", Dir: true},
 		{Path: "DIR/TARGET.DAT", Data: content, Sparse: sparse},
 		{Path: "AFTER.BIN", Data: other},
+	}
+	// a file of more than 4 GiB (two data runs around a hole of 5 GiB) next to the target, on the volumes mke2fs builds
+	var far *imgEntry
+	if kind == "ext4-mke2fs" && t.I("tag")%4 < 2 {
+		far = &imgEntry{Path: "FAR.DAT", Data: core.PatternBytes(uint64(t.I("tag"))+2, 16384), FarOff: 5<<30 + 4096*int64(t.I("tag")%7)}
+		tree = append(tree, *far)
 	}
 	fail := func(i int, clause, trig, locus, detail string) *core.Result {
 		res.V = &core.Violation{Clause: "C10." + clause, Trigger: kindFamily(kind) + ":" + trig, Locus: locus, Detail: detail, OpIndex: i}
@@ -403,6 +409,12 @@ func (p c10) Exec(t *core.Trace) *core.Result {
 	if !closed {
 		core.Guard(func() { f.Close() })
 	}
+	if far != nil {
+		if r := c10Far(res, fs, bi.PathOf(far.Path), far, uint64(t.I("tag")), fail, locus); r != nil {
+			return r
+		}
+		hist = core.Mix(hist, 77)
+	}
 	res.DevOps = bi.D.St.Reads
 	if nontrivial {
 		res.Hashes = append(res.Hashes, hist)
@@ -459,4 +471,86 @@ func kindPkg(kind string) string {
 		return "iso9660"
 	}
 	return "squashfs"
+}
+
+// c10Far drives Seek/Read on a file whose second data run lies beyond 4 GiB: positions around the 32-bit mark,
+// around the start of the far run and around the end of the file, with all three whence values.
+func c10Far(res *core.Result, fs filesystem.FileSystem, path string, e *imgEntry, tag uint64, fail func(int, string, string, string, string) *core.Result, locus string) *core.Result {
+	half := int64(len(e.Data) / 2)
+	size := e.FarOff + half
+	at := func(off int64) byte {
+		switch {
+		case off < half:
+			return e.Data[off]
+		case off >= e.FarOff && off < size:
+			return e.Data[half+off-e.FarOff]
+		}
+		return 0
+	}
+	var f filesystem.File
+	var err error
+	if pk, pv, loc, _ := core.Guard(func() { f, err = fs.OpenFile(path, os.O_RDONLY) }); pk {
+		return fail(-1, "panic", "open(far):"+core.PanicClass(pv), loc, fmt.Sprint(pv))
+	}
+	if err != nil {
+		return fail(-1, "open-file", "open(far)", locus, fmt.Sprintf("OpenFile(%q): %v", path, err))
+	}
+	defer func() { core.Guard(func() { f.Close() }) }()
+	res.Probe("file-beyond-4GiB")
+	r := core.NewRng(tag ^ 0xfa4)
+	pos := int64(0)
+	targets := []int64{e.FarOff - 100, e.FarOff, e.FarOff + 1, size - 50, size - 1, 1<<32 - 10, 1 << 32, half - 10, e.FarOff + half/2, 1<<32 + 4096}
+	for k := 0; k < 8; k++ {
+		target := targets[r.Intn(len(targets))]
+		whence, off := io.SeekStart, target
+		switch r.Intn(3) {
+		case 1:
+			whence, off = io.SeekCurrent, target-pos
+		case 2:
+			whence, off = io.SeekEnd, target-size
+		}
+		var np int64
+		trig := fmt.Sprintf("seek(far,whence=%d)", whence)
+		if pk, pv, loc, _ := core.Guard(func() { np, err = f.Seek(off, whence) }); pk {
+			return fail(-1, "panic", trig+":"+core.PanicClass(pv), loc, fmt.Sprint(pv))
+		}
+		if err != nil || np != target {
+			return fail(-1, "seek-position", trig, locus+".Seek", fmt.Sprintf("Seek(%d, %d) from position %d of a %d-byte file returned (%d, %v), io.Seeker says %d", off, whence, pos, size, np, err, target))
+		}
+		pos = target
+		want := core.PickOf[int64](r, 1, 300, 5000)
+		buf := make([]byte, want)
+		got := int64(0)
+		for tries := 0; got < want && tries < 6; tries++ {
+			var n int
+			if pk, pv, loc, _ := core.Guard(func() { n, err = f.Read(buf[got:]) }); pk {
+				return fail(-1, "panic", "read(far):"+core.PanicClass(pv), loc, fmt.Sprint(pv))
+			}
+			res.Steps++
+			res.Evals++
+			if n < 0 || int64(n) > want-got || pos+int64(n) > size {
+				return fail(-1, "read-count", "read(far)", locus+".Read", fmt.Sprintf("Read of %d bytes at %d of a %d-byte file returned n=%d", want-got, pos, size, n))
+			}
+			for j := int64(0); j < int64(n); j++ {
+				if buf[got+j] != at(pos+j) {
+					return fail(-1, "wrong-bytes", "read(far)", locus+".Read", fmt.Sprintf("byte %d of a %d-byte file (data runs [0,%d) and [%d,%d)) read as %#x, the file holds %#x", pos+j, size, half, e.FarOff, size, buf[got+j], at(pos+j)))
+				}
+			}
+			got += int64(n)
+			pos += int64(n)
+			if err == io.EOF {
+				if pos != size {
+					return fail(-1, "early-eof", "read(far)", locus+".Read", fmt.Sprintf("io.EOF at position %d of a %d-byte file", pos, size))
+				}
+				break
+			}
+			if err != nil {
+				return fail(-1, "read-error", "read(far)", locus+".Read", fmt.Sprintf("Read at %d of a %d-byte file: %v", pos, size, err))
+			}
+			if pos == size && n == 0 {
+				return fail(-1, "eof-not-reported", "read(far)", locus+".Read", fmt.Sprintf("Read at the end (%d) returned (0, nil)", size))
+			}
+		}
+	}
+	return nil
 }
